@@ -141,7 +141,8 @@ class MemoryStorage(AbstractStorage):
             self.replace(bucket, event.id, event)
         else:
             # We need to copy the event to avoid setting the ID on the passed event
-            event = copy.copy(event)
+            # (a deep copy, so that the stored data isn't shared with the passed event)
+            event = copy.deepcopy(event)
             if self.db[bucket]:
                 event.id = max(int(e.id or 0) for e in self.db[bucket]) + 1
             else:
@@ -177,7 +178,8 @@ class MemoryStorage(AbstractStorage):
             if event.id == event_id
         ):
             # We need to copy the event to avoid setting the ID on the passed event
-            event = copy.copy(event)
+            # (a deep copy, so that the stored data isn't shared with the passed event)
+            event = copy.deepcopy(event)
             event.id = event_id
             self.db[bucket_id][idx] = event
 
